@@ -91,3 +91,27 @@ Proof. cbn. rewrite String.eqb_refl. reflexivity. Qed.
 (* one record / map / plucked value per row, in the rows' order *)
 Lemma recs_length s rs : length (struct_recs s rs) = length rs /\ length (map_recs s rs) = length rs.
 Proof. unfold struct_recs, map_recs. rewrite !map_length. split; reflexivity. Qed.
+
+(* ---- Count under a Select (C15_Count) ---- *)
+From Verif Require Import C15_Count.
+
+(* Count equals the number of rows Find returns unless ONE column is selected and that column is
+   NULL in a matching row *)
+Theorem count_sel_agrees selects ms :
+  (forall c r, counts_column selects = Some c -> In r ms -> col_value c r <> None) ->
+  count_sel selects ms = Z.of_nat (length ms).
+Proof.
+  intros H. unfold count_sel. destruct (counts_column selects) as [c|] eqn:E; [|reflexivity].
+  f_equal. f_equal. induction ms as [|r ms IH]; [reflexivity|]. cbn [filter].
+  destruct (col_value c r) eqn:Ev.
+  - cbn [length]. f_equal. apply IH. intros c0 r0 Hc Hin. apply H; [exact Hc|right; exact Hin].
+  - exfalso. apply (H c r eq_refl (or_introl eq_refl)). exact Ev.
+Qed.
+
+(* several selected columns, a column list in one string, no Select: always the number of rows *)
+Theorem count_sel_star selects ms : counts_column selects = None -> count_sel selects ms = Z.of_nat (length ms).
+Proof. intros H. unfold count_sel. rewrite H. reflexivity. Qed.
+
+(* the hypothesis is needed: the faithful model counts COUNT(n) for Select("n") (known finding) *)
+Theorem count_sel_refuted : exists selects ms, count_sel selects ms <> Z.of_nat (length ms).
+Proof. exists ["n"%string], [(3, 10); (4, 20)]. vm_compute. discriminate. Qed.
